@@ -268,6 +268,10 @@ pub fn c06(ctx: &Ctx) -> PropResult {
         let semi = format!("y <- 1\nl <- [1, 2]\nPROCEDURE f(q) {{\nRETURN q\n}}\n{a};{b}\nDISPLAY(\"end\")\n");
         cases.push(Case::new(Kind::Run, nl).tag("newline-ends-statement").aux(semi));
     }
+    // (appended, round 16) a brace-less branch and its ELSE separated by blank lines, comments, `;`, CR LF, continuations
+    for (v, canon) in crate::props6::unbraced_else_separations() {
+        cases.push(Case::new(Kind::Run, v).tag("layout").tag("layout:else-separation").aux(canon));
+    }
     let enders2 = enders.clone();
     let oracle = move |case: &Case, out: &Outcome| -> Result<bool, String> {
         if case.tags.iter().any(|t| t == "layout") {
@@ -747,6 +751,11 @@ pub fn c09(ctx: &Ctx) -> PropResult {
         };
         cases.push(Case::new(Kind::Parse, commented).tag("derivation-comments").aux("accept".into()));
     }
+    // (appended, round 16) headers that name a parameter twice are derivable and accepted (the later binding wins)
+    for p in crate::props6::repeated_parameter_family() {
+        cases.push(Case::new(Kind::Parse, p.clone()).tag("repeated-parameter").aux("accept".into()));
+        cases.push(Case::new(Kind::Run, p).tag("repeated-parameter-run"));
+    }
     let oracle = |case: &Case, out: &Outcome| -> Result<bool, String> {
         let rec = &out.impl_rec;
         if let Some(m) = rec.strip_prefix("panic ") {
@@ -998,6 +1007,19 @@ pub fn c11(ctx: &Ctx) -> PropResult {
                 let got = &text[*o..*o + *l];
                 if got.trim() != label.trim() {
                     return Err(format!("the label covers {:?} of the module, the failing construct is {:?}", got, label));
+                }
+                // (appended, round 16) the report the public pipeline hands to the command-line tool shows the same
+                // construct: its attached source yields the module's text under the label
+                if let Some(lts) = imp::public_runtime_label_texts(&case.src, &case.path, case.fuel.max(200_000), 48) {
+                    match lts.first() {
+                        Some((po, pl, Some(shown))) => {
+                            if (*po, *pl) != (*o, *l) || shown.as_str() != got {
+                                return Err(format!("the report of the public pipeline shows {:?} at {po}+{pl} for an error raised inside the module at {o}+{l} ({:?})", shown, got));
+                            }
+                        }
+                        Some((po, pl, None)) => return Err(format!("the report of the public pipeline carries a label {po}+{pl} that cannot be read from its attached source (the module's construct is {:?})", got)),
+                        None => return Err("the report of the public pipeline carries no label".into()),
+                    }
                 }
                 return Ok(true);
             }
